@@ -391,6 +391,11 @@ struct BigHandler : public Http::Handler {
             for (size_t pos = 0; pos < n; pos += 65536) { size_t k = std::min<size_t>(65536, n - pos); stream.write(all.data() + pos, (std::streamsize)k); stream << Http::flush; }
             stream << Http::ends;
             g_stream_handler_done++;
+        } else if (req.resource() == "/bigfile") {
+            // a file response (sendfile): the file holds the tagged stream
+            { lv::Interpose& I = lv::ip(); std::lock_guard<std::mutex> g(I.m); I.fds[response.peer()->fd()]; }
+            { std::lock_guard<std::mutex> g(g_m); g_peers[peer_port(response.peer())].fd = response.peer()->fd(); }
+            Http::serveFile(response, req.query().get("f").value_or("/nonexistent"));
         } else if (req.resource() == "/slow") { lv::msleep(atoi(req.query().get("ms").value_or("500").c_str())); response.send(Http::Code::Ok, "pong:/slow"); }
         else response.send(Http::Code::Ok, "pong:" + req.resource());
     }
@@ -409,7 +414,9 @@ static void run_c07(long cases) {
         int extra = r.range(0, 3);
         int nOthers = r.range(1, 3);
         int when = r.range(0, 2);   // other connections issue their request: 0 during the block, 1 before and during, 2 during, repeatedly
-        int variant = (int)(n % 3);  // 0 fixed response, 1 streamed response flushed per chunk, 2 fixed response + second request from the blocked peer while the worker is busy
+        // 0 fixed response, 1 streamed response flushed per chunk, 2 fixed response + second request from the blocked peer while the worker is busy,
+        // 3 file response (sendfile), 4 fixed response + the blocked peer sends the first part of its next request during the stall
+        int variant = (int)((n + g_opts.shard) % 5);
         double stall = 0.2 + r.below(10) * 0.1;
         std::string wt = Json().num("i", idx).str("phase", "c07").num("big_bytes", (long long)big).num("extra_writes", extra).num("others", nOthers).num("when", when).num("stall_s_x10", (long long)(stall * 10)).done();
         set_case(idx, wt);
@@ -427,7 +434,10 @@ static void run_c07(long cases) {
         };
         if (when == 1) for (auto& o : others) if (!ping(*o, "/before", 5 * lf, nullptr)) key = "c07:harness:other-connection-not-served-before-block";
         // A requests the big response and does not read
+        std::string bigFile;
         if (variant == 1) { big = std::min<size_t>(big, 12u << 20); extra = 0; a.send_all("GET /bigstream?n=" + std::to_string(big) + "&w=77 HTTP/1.1\r\nHost: x\r\n\r\n"); }
+        else if (variant == 3) { extra = 0; bigFile = g_tmpdir + "/big-" + std::to_string(idx) + ".bin"; { std::string all = tagged(77, big); FILE* f = fopen(bigFile.c_str(), "wb"); if (f) { fwrite(all.data(), 1, all.size(), f); fclose(f); } }
+            a.send_all("GET /bigfile?f=" + bigFile + " HTTP/1.1\r\nHost: x\r\n\r\n"); }
         else a.send_all("GET /big?n=" + std::to_string(big) + "&w=77&extra=" + std::to_string(extra) + " HTTP/1.1\r\nHost: x\r\n\r\n");
         int sfd = -1;
         wait_for([&] { std::lock_guard<std::mutex> g(g_m); auto it = g_peers.find(a.localPort); if (it == g_peers.end() || it->second.fd < 0) return false; sfd = it->second.fd; return true; }, 5 * lf);
@@ -456,6 +466,11 @@ static void run_c07(long cases) {
             lv::msleep(150);
             a.send_all("GET /second HTTP/1.1\r\nHost: x\r\n\r\n");
         }
+        if (key.empty() && variant == 4) {
+            // input from the blocked peer that completes no request (nothing is queued in answer): it must not use up the
+            // worker's interest in the descriptor becoming writable
+            a.send_all("GET /sec"); lv::msleep(100);
+        }
         // release: A reads everything
         if (key.empty()) {
             std::string buf; lv::HttpMsg m;
@@ -463,7 +478,8 @@ static void run_c07(long cases) {
             for (;;) { m = lv::parse_http(buf, 0, true); if (m.complete || !m.error.empty() || lv::now() > deadline) break; bool eof = false; if (!a.read_some(buf, 200, 1 << 30, &eof)) break; }
             if (!m.complete) key = "c07:blocked-peer-not-completed-after-release";
             else if (m.body != tagged(77, big)) key = "c07:blocked-peer-body-corrupt";
-            else if (variant == 2) {
+            else if (variant == 2 || variant == 4) {
+                if (variant == 4) a.send_all("ond HTTP/1.1\r\nHost: x\r\n\r\n");
                 size_t off = m.consumed + (size_t)extra * 1000; double d2 = lv::now() + 10 * lf; lv::HttpMsg m2;
                 for (;;) { m2 = buf.size() >= off ? lv::parse_http(buf, off, true) : lv::HttpMsg(); if (m2.complete || !m2.error.empty() || lv::now() > d2) break; a.read_some(buf, 100); }
                 if (!m2.complete || m2.body != "pong:/second") key = "c07:request-sent-during-the-stall-never-answered";
@@ -483,6 +499,7 @@ static void run_c07(long cases) {
         g_counts["worst_other_latency_ms"] = std::max<long>(g_counts["worst_other_latency_ms"], (long)(worst * 1000));
         if (g_samples_left > 0) { g_samples_left--; sample(Json().num("big_bytes", (long long)big).num("others", nOthers).num("write_attempts_while_blocked", attempts).num("worst_other_latency_ms", (long long)(worst * 1000)).done()); }
         a.close_now(); others.clear();
+        if (!bigFile.empty()) unlink(bigFile.c_str());
         ep.shutdown();
         { std::lock_guard<std::mutex> g(g_m); g_peers.clear(); }
     }
